@@ -35,7 +35,7 @@ def backupLine (st : BkRun) (lineNo : Nat) (line : String) : Except String (BkRu
   | "backup" :: rest =>
     let fs := fields rest
     let get := fun k => (lookup fs k).getD ""
-    let tag := s!"line={lineNo} writes={get "writes"} script={get "script"} latency={get "latency"} race={get "race"} cancel={get "cancel"}"
+    let tag := s!"line={lineNo} reopened={get "reopened"} writes={get "writes"} script={get "script"} latency={get "latency"} race={get "race"} cancel={get "cancel"}"
     if get "spins" == "1" then
       .ok ({ st with cases := st.cases + 1, fails := st.fails + 1, cover := bump st.cover "backup:spins" },
            [s!"PROPFAIL C17 quiescent {tag} the backup task stopped consuming virtual time (busy loop): no upload log could be collected"])
@@ -98,7 +98,7 @@ def backupLine (st : BkRun) (lineNo : Nat) (line : String) : Except String (BkRu
           (if m.attempts.map (·.ok) == ups.map (·.ok) || m.attempts.length != ups.length then [] else [s!"DIVERGE backup_outcomes {tag}"]) ++
           (if exitAt ≥ 0 && m.exit != some exitAt.toNat then [s!"DIVERGE backup_exit {tag} code={exitAt} model={repr m.exit}"] else [])
         let nf := (outs.filter (·.startsWith "PROPFAIL")).length
-        let key := s!"backup:w{min writes.length 6}:u{min ups.length 6}:f{(ups.filter (!·.ok)).length}:race{if race > 0 then 1 else 0}:lat{latency}"
+        let key := s!"backup:re{get "reopened"}:w{min writes.length 6}:u{min ups.length 6}:f{(ups.filter (!·.ok)).length}:race{if race > 0 then 1 else 0}:lat{latency}"
         .ok ({ st with cases := st.cases + 1, fails := st.fails + nf, diverges := st.diverges + (outs.length - nf), cover := bump st.cover key }, outs)
   | _ => if line.startsWith "#" || line.isEmpty || line.startsWith "begin" then .ok (st, []) else .error s!"line {lineNo}: unknown line kind"
 
